@@ -178,8 +178,14 @@ def run(rep, pdb, tier):
     k = for_range(ctx, kloop[0])[0] if kloop else None
     cur = _resolve(ctx, am.cur)
     looks = is_abs_term(cur) and cur[2] == ("idx", AU, ("tup", am.var, num(0)))
-    rep.add("argmax/decompose", rule_a, am.orient_ok and am.best_gets_cur and am.idx_val == am.var and am.magnitude_ok and looks and am.lo == lin_add(k, num(1)),
-            am.ifnode, am.detail)
+    cond_above = [a for a in ancestors(am.loop) if a.get("k") in ("If", "Match")]
+    # the search window ends at the running bound l (m1 at the start, growing by one row per step up to n): every row that can
+    # hold a non-zero in the pivot column is a candidate at every step
+    hb = ctx.binds.get(am.hi[1]) if am.hi[0] == "var" else None
+    hi_ok = hb is not None and hb.init is not None and ctx.term(hb.init) == F(P(0), "m1")
+    rep.add("argmax/decompose", rule_a + "; the search covers rows k+1..l (l the running window bound) at every step (no fast path skips or shortens it)",
+            am.orient_ok and am.best_gets_cur and am.idx_val == am.var and am.magnitude_ok and looks and am.lo == lin_add(k, num(1)) and hi_ok and not cond_above,
+            am.ifnode, am.detail + ("; the search is skipped under a condition at %s" % loc(cond_above[0]) if cond_above else ""))
     effs = effects(pdb, ctx)
     # index[k] records the chosen row on every path
     rec = [e for e in effs if e.kind == "set" and e.target == INDEX]
